@@ -11,6 +11,10 @@ import "sync/atomic"
 
 var hook atomic.Pointer[func()]
 
+// Held counts the locks of instrumented packages that are held right now
+// (sim/shim/simsync); the hook does not pause while it is positive.
+var Held atomic.Int64
+
 // P is called in front of a statement of the code under test.
 func P() {
 	if h := hook.Load(); h != nil {
